@@ -50,4 +50,17 @@ noncomputable instance : Transc ℝ where
 @[simp] theorem gtb_real (a b : ℝ) : Transc.gtb a b = true ↔ b < a := by unfold Transc.gtb; simp
 @[simp] theorem geb_real (a b : ℝ) : Transc.geb a b = true ↔ b ≤ a := by unfold Transc.geb; simp
 
+/-- the exponential never equals the literal zero: the `if expc == 0: return 0.0` branch of a translated function is dead at the reals -/
+theorem eqb_exp_lit_zero (x : ℝ) : Transc.eqb (Real.exp x) (Transc.lit 0 0 : ℝ) = false := by
+  cases h : Transc.eqb (Real.exp x) (Transc.lit 0 0 : ℝ) with
+  | false => rfl
+  | true =>
+    rw [eqb_real, lit_real] at h
+    exact absurd (by simpa using h) (Real.exp_ne_zero x)
+
+/-- the same in the form `lit_real` leaves behind -/
+theorem eqb_exp_zero' (x : ℝ) : Transc.eqb (Real.exp x) (((0 : ℕ) : ℝ) / 10 ^ 0) = false := by
+  have := eqb_exp_lit_zero x
+  rwa [lit_real] at this
+
 end FF
